@@ -6,7 +6,7 @@ From FT.lib Require Import Num Arr ArrLemmas Lower NumArr.
 From FT.gen Require Import Common Fteik2d Fteik3d.
 From Coq Require Import Reals.
 From FT.proofs Require Import Sweep2dProofs Sweep3dProofs Solve2dProofs Solve3dProofs.
-From FT.proofs Require OperatorsR NonNeg2d Pos2d NonNeg3d Pos3d.
+From FT.proofs Require OperatorsR NonNeg2d Pos2d NonNeg3d Pos3d GridPath.
 Import ListNotations.
 Open Scope Z_scope.
 
@@ -265,6 +265,108 @@ Theorem C03_eight_point_guard_noop_cubic :
        NonNeg3d.node_value_sp false tt slow d d d i j k sgnvz sgnvx sgnvy sgntz sgntx sgnty nz nx ny.
 Proof. exact @NonNeg3d.t3d_guard_noop_cubic. Qed.
 
+(* a converged 2D solution (one more pass changes nothing) satisfies T(p) <= T(q) + smax * Manhattan grid distance for any two nodes *)
+Theorem C03_converged_2d_below_grid_path_bound :
+  forall (slow : arr R) (dz dx zsrc xsrc smax : R),
+       (0 < dz)%R ->
+       (0 < dx)%R ->
+       1 <= dim slow 0 ->
+       1 <= dim slow 1 ->
+       (forall i j : Z, 0 <= i < dim slow 0 -> 0 <= j < dim slow 1 -> (get 0 slow [i; j] <= smax)%R) ->
+       forall (nsweep : Z) (grad : bool) (tt G : arr R) (v : R) (tt' G' : arr R) (v' : R),
+       0 <= nsweep ->
+       fteik2d slow dz dx zsrc xsrc nsweep grad = Ok (tt, G, v) ->
+       fteik2d slow dz dx zsrc xsrc (nsweep + 1) grad = Ok (tt', G', v') ->
+       tt' = tt ->
+       forall i j i' j' : Z,
+       0 <= i <= dim slow 0 ->
+       0 <= j <= dim slow 1 ->
+       0 <= i' <= dim slow 0 ->
+       0 <= j' <= dim slow 1 ->
+       (get 0 tt [i'; j'] <= get 0 tt [i; j] + smax * (dz * IZR (Z.abs (i' - i)) + dx * IZR (Z.abs (j' - j))))%R.
+Proof. exact @GridPath.fteik2d_converged_grid_bound. Qed.
+
+(* node source: 0 <= T(i,j) <= smax * (dz|i-kz| + dx|j-kx|) - the slowest grid-path bound *)
+Theorem C03_converged_2d_node_source_bound :
+  forall (slow : arr R) (dz dx zsrc xsrc smax : R),
+       (0 < dz)%R ->
+       (0 < dx)%R ->
+       1 <= dim slow 0 ->
+       1 <= dim slow 1 ->
+       (forall i j : Z, 0 <= i < dim slow 0 -> 0 <= j < dim slow 1 -> (get 0 slow [i; j] <= smax)%R) ->
+       wf slow ->
+       shape slow = [dim slow 0; dim slow 1] ->
+       (forall i j : Z, 0 <= i < dim slow 0 -> 0 <= j < dim slow 1 -> (0 < get 0 slow [i; j])%R) ->
+       forall (nsweep : Z) (grad : bool) (tt G : arr R) (v : R) (tt' G' : arr R) (v' : R) (kz kx : Z),
+       0 <= nsweep ->
+       fteik2d slow dz dx zsrc xsrc nsweep grad = Ok (tt, G, v) ->
+       fteik2d slow dz dx zsrc xsrc (nsweep + 1) grad = Ok (tt', G', v') ->
+       tt' = tt ->
+       zsrc = (dz * IZR kz)%R ->
+       xsrc = (dx * IZR kx)%R ->
+       forall i j : Z,
+       0 <= i <= dim slow 0 ->
+       0 <= j <= dim slow 1 ->
+       (0 <= get 0 tt [i; j] <= smax * (dz * IZR (Z.abs (i - kz)) + dx * IZR (Z.abs (j - kx))))%R.
+Proof. exact @GridPath.fteik2d_converged_node_source_inputs. Qed.
+
+(* off-node source: T(i,j) <= vzero * distance(source, corner) + smax * Manhattan(corner, node) for each corner of the source cell *)
+Theorem C03_converged_2d_off_node_bound :
+  forall (slow : arr R) (dz dx zsrc xsrc smax : R),
+       (0 < dz)%R ->
+       (0 < dx)%R ->
+       1 <= dim slow 0 ->
+       1 <= dim slow 1 ->
+       (forall i j : Z, 0 <= i < dim slow 0 -> 0 <= j < dim slow 1 -> (get 0 slow [i; j] <= smax)%R) ->
+       forall (nsweep : Z) (grad : bool) (tt G : arr R) (v : R) (tt' G' : arr R) (v' : R),
+       0 <= nsweep ->
+       fteik2d slow dz dx zsrc xsrc nsweep grad = Ok (tt, G, v) ->
+       fteik2d slow dz dx zsrc xsrc (nsweep + 1) grad = Ok (tt', G', v') ->
+       tt' = tt ->
+       i_iflag slow dz dx zsrc xsrc grad = 2 ->
+       forall ci cj : Z,
+       i_zsi slow dz dx zsrc xsrc grad <= ci <= i_zsi slow dz dx zsrc xsrc grad + 1 ->
+       i_xsi slow dz dx zsrc xsrc grad <= cj <= i_xsi slow dz dx zsrc xsrc grad + 1 ->
+       forall i j : Z,
+       0 <= i <= dim slow 0 ->
+       0 <= j <= dim slow 1 ->
+       (get 0 tt [i; j] <=
+        v *
+        sqrt
+          ((dz * (IZR ci - i_zsa slow dz dx zsrc xsrc grad)) ^ 2 +
+           (dx * (IZR cj - i_xsa slow dz dx zsrc xsrc grad)) ^ 2) +
+        smax * (dz * IZR (Z.abs (i - ci)) + dx * IZR (Z.abs (j - cj))))%R.
+Proof. exact @GridPath.fteik2d_converged_off_node_corner. Qed.
+
+(* 3D node source *)
+Theorem C03_converged_3d_node_source_bound :
+  forall (slow : arr R) (dz dx dy zsrc xsrc ysrc smax : R),
+       (0 < dz)%R ->
+       (0 < dx)%R ->
+       (0 < dy)%R ->
+       1 <= dim slow 0 ->
+       1 <= dim slow 1 ->
+       1 <= dim slow 2 ->
+       (forall i j k : Z,
+        0 <= i < dim slow 0 -> 0 <= j < dim slow 1 -> 0 <= k < dim slow 2 -> (get 0 slow [i; j; k] <= smax)%R) ->
+       (forall i j k : Z,
+        0 <= i < dim slow 0 -> 0 <= j < dim slow 1 -> 0 <= k < dim slow 2 -> (0 < get 0 slow [i; j; k])%R) ->
+       forall (nsweep : Z) (grad : bool) (tt G : arr R) (v : R) (tt' G' : arr R) (v' : R) (kz kx ky : Z),
+       0 <= nsweep ->
+       fteik3d slow dz dx dy zsrc xsrc ysrc nsweep grad = Ok (tt, G, v) ->
+       fteik3d slow dz dx dy zsrc xsrc ysrc (nsweep + 1) grad = Ok (tt', G', v') ->
+       tt' = tt ->
+       zsrc = (dz * IZR kz)%R ->
+       xsrc = (dx * IZR kx)%R ->
+       ysrc = (dy * IZR ky)%R ->
+       forall i j k : Z,
+       0 <= i <= dim slow 0 ->
+       0 <= j <= dim slow 1 ->
+       0 <= k <= dim slow 2 ->
+       (get 0 tt [i; j; k] <=
+        smax * (dz * IZR (Z.abs (i - kz)) + dx * IZR (Z.abs (j - kx)) + dy * IZR (Z.abs (k - ky))))%R.
+Proof. exact @GridPath.fteik3d_converged_node_source. Qed.
+
 (* 3D, positive slowness: a node coinciding with the source (no snapping in 3D: all three coordinates integral in grid units) holds 0 *)
 Theorem C03_solve3d_zero_at_source :
   forall (slow : arr R) (dz dx dy zsrc xsrc ysrc : R) (nsweep : Z) (grad : bool) (tt ttgrad : arr R) (vzero : R),
@@ -410,6 +512,10 @@ Print Assumptions C03_solve3d_nonneg.
 Print Assumptions C03_eight_point_unguarded_negative_iff_noncubic.
 Print Assumptions C03_node_update_unguarded_refuted.
 Print Assumptions C03_eight_point_guard_noop_cubic.
+Print Assumptions C03_converged_2d_below_grid_path_bound.
+Print Assumptions C03_converged_2d_node_source_bound.
+Print Assumptions C03_converged_2d_off_node_bound.
+Print Assumptions C03_converged_3d_node_source_bound.
 Print Assumptions C03_solve3d_zero_at_source.
 Print Assumptions C03_solve3d_positive_off_node.
 Print Assumptions C03_solve3d_zero_dichotomy.
